@@ -692,6 +692,39 @@ def f57():
 
 
 
+@witness("F58", ["C19", "C04"])
+def f58():
+    import tempfile
+    import shutil
+    from cincoconfig import Schema, AnyField, DictField, StringField
+    d = tempfile.mkdtemp(prefix="verif_f58_")
+    res = []
+    try:
+        for n, key in enumerate(["a>b", "a>", "x>y>z", 'a x="1"', "a b", "ok.name", "\u00e9"]):
+            s = Schema()
+            s.v = AnyField()
+            s.t = DictField(StringField(), StringField())
+            c = s()
+            c.v = {key: "v1"}
+            c.t = {key: "v2"}
+            path = os.path.join(d, "f%d.xml" % n)
+            with open(path, "wb") as fp:
+                fp.write(b"previous content")
+            try:
+                c.save(path, "xml")
+                back = s()
+                back.load(path, "xml")
+                res.append((key, "saved", back.v == {key: "v1"} and dict(back.t) == {key: "v2"}))
+            except Exception as e:  # noqa
+                with open(path, "rb") as fp:
+                    res.append((key, type(e).__name__, fp.read() == b"previous content"))
+    finally:
+        shutil.rmtree(d, ignore_errors=True)
+    ok = all(r[2] for r in res) and [r[1] for r in res][-2:] == ["saved", "saved"] and all(r[1] != "saved" for r in res[:5])
+    return ok, "map keys that are not XML names: the XML save fails and leaves the file alone, or round-trips: %r" % (res,)
+
+
+
 @witness("P1", ["C01", "C05"])
 def p1():
     """not a repaired defect: a standing probe of a corner no model covers (case maps that change the length of a string:
